@@ -2,7 +2,7 @@ use crate::rt::execution;
 use crate::rt::object::Operation;
 use crate::rt::vv::VersionVec;
 
-use std::{any::Any, collections::HashMap, fmt, ops};
+use std::{any::Any, fmt, ops};
 
 use super::Location;
 pub(crate) struct Thread {
@@ -81,9 +81,11 @@ pub(crate) enum State {
     Terminated,
 }
 
-type LocalMap = HashMap<LocalKeyId, LocalValue>;
+/// Thread-locals in initialization order. Their destructors run in this order,
+/// which keeps the exploration deterministic.
+type LocalMap = Vec<(LocalKeyId, LocalValue)>;
 
-#[derive(Eq, PartialEq, Hash, Copy, Clone)]
+#[derive(Eq, PartialEq, Copy, Clone)]
 struct LocalKeyId(usize);
 
 struct LocalValue(Option<Box<dyn Any>>);
@@ -101,7 +103,7 @@ impl Thread {
             dpor_vv: VersionVec::new(),
             last_yield: None,
             yield_count: 0,
-            locals: HashMap::new(),
+            locals: Vec::new(),
         }
     }
 
@@ -143,7 +145,7 @@ impl Thread {
         let mut locals = Vec::with_capacity(self.locals.len());
 
         // run the Drop impls of any mock thread-locals created by this thread.
-        for local in self.locals.values_mut() {
+        for (_, local) in self.locals.iter_mut() {
             locals.push(local.0.take());
         }
 
@@ -391,10 +393,12 @@ impl Set {
         &mut self,
         key: &'static crate::thread::LocalKey<T>,
     ) -> Option<Result<&T, AccessError>> {
+        let id = LocalKeyId::new(key);
         self.active_mut()
             .locals
-            .get(&LocalKeyId::new(key))
-            .map(|local_value| local_value.get())
+            .iter()
+            .find(|(local_id, _)| *local_id == id)
+            .map(|(_, local_value)| local_value.get())
     }
 
     pub(crate) fn local_init<T: 'static>(
@@ -402,11 +406,10 @@ impl Set {
         key: &'static crate::thread::LocalKey<T>,
         value: T,
     ) {
-        assert!(self
-            .active_mut()
-            .locals
-            .insert(LocalKeyId::new(key), LocalValue::new(value))
-            .is_none())
+        let id = LocalKeyId::new(key);
+        let locals = &mut self.active_mut().locals;
+        assert!(locals.iter().all(|(local_id, _)| *local_id != id));
+        locals.push((id, LocalValue::new(value)));
     }
 }
 
